@@ -57,10 +57,28 @@ def ensure_gosum():
             f.write(new)
 
 
+def alt_modfile():
+    """VERIF_REPO=<dir> (development only: mutants / proposed fixes in a scratch worktree)
+    builds the harness against <dir> instead of /repo through an alternate go.mod."""
+    alt = os.environ.get("VERIF_REPO")
+    if not alt or os.path.abspath(alt) == "/repo":
+        return []
+    alt = os.path.abspath(alt)
+    tag = re.sub(r"[^A-Za-z0-9]", "_", alt)
+    d = os.path.join(BUILD, "altmod")
+    os.makedirs(d, exist_ok=True)
+    mod = os.path.join(d, tag + ".mod")
+    src = open(os.path.join(HARNESS, "go.mod")).read().replace("=> /repo", "=> " + alt)
+    with open(mod, "w") as f:
+        f.write(src)
+    shutil.copy(os.path.join(HARNESS, "go.sum"), os.path.join(d, tag + ".sum"))
+    return ["-modfile=" + mod]
+
+
 def build(pkg, out, race=False, timeout=1500):
     os.makedirs(os.path.dirname(out), exist_ok=True)
     ensure_gosum()
-    cmd = ["go", "test", "-c", "-tags", "verif", "-vet=off", "-o", out]
+    cmd = ["go", "test", "-c", "-tags", "verif", "-vet=off", "-o", out] + alt_modfile()
     if race:
         cmd.append("-race")
     cmd.append("./props/" + pkg)
@@ -458,7 +476,7 @@ def run_fuzz(pid, spec, st, base_env, work, scale):
     env = dict(base_env)
     env["VERIF_STATS_FILE"] = ""
     env["GOCACHE"] = subprocess.run(["go", "env", "GOCACHE"], env=base_env, stdout=subprocess.PIPE, text=True).stdout.strip()
-    cmd = ["go", "test", "-tags", "verif", "-vet=off", "-run", "^$", "-fuzz", "^%s$" % target,
+    cmd = ["go", "test", "-tags", "verif", "-vet=off"] + alt_modfile() + ["-run", "^$", "-fuzz", "^%s$" % target,
            "-fuzztime", "%ds" % secs, "-timeout", "%ds" % (secs + 900), "./props/" + spec["pkg"]]
     t0 = time.time()
     try:
